@@ -31,6 +31,7 @@ EXPLANATION = (
     "names and one call level. R09.3: callers agree with themselves: the protein range used for a hit's location is the "
     "range used for its translation slice, and a precursor peptide's leader/core/tail partition [0, total) with shared "
     "boundaries."
+    ' R09.7: coordinate extremes of the pre-/post-origin sections of a bridging location are min/max aggregates or read under a strand test, never positional elements.'
 )
 UNDECIDED = [
     "the compound-location walk of convert_protein_position_to_dna (wrong for origin-spanning genes; needs the exon layout)",
